@@ -8,6 +8,7 @@ import (
 	"reflect"
 	"strconv"
 	"strings"
+	"time"
 
 	"github.com/reusee/sb"
 )
@@ -68,20 +69,78 @@ func floatTable(ts []sb.Token) string {
 	return "[" + strings.Join(xs, "; ") + "]"
 }
 
+// unmarshal runs that did not return (each keeps a goroutine spinning): after a few, no more are started
+var unmLeaked int
+
 func unmarshalInto(t reflect.Type, ts []sb.Token, ctx *sb.Ctx) (reflect.Value, error) {
 	target := reflect.New(t)
-	err := guard(func() error {
-		var sink sb.Sink
-		if ctx == nil {
-			sink = sb.Unmarshal(target.Interface())
-		} else {
-			c := *ctx
-			c.Unmarshal = sb.UnmarshalValue
-			sink = sb.UnmarshalValue(c, target, nil)
-		}
-		return copyBudget(tokensFrom(ts), sink)
+	if unmLeaked > 3 {
+		return target.Elem(), errDiverge
+	}
+	err := withWatchdog(5*time.Second, &unmLeaked, func() error {
+		return guard(func() error {
+			var sink sb.Sink
+			if ctx == nil {
+				sink = sb.Unmarshal(target.Interface())
+			} else {
+				c := *ctx
+				c.Unmarshal = sb.UnmarshalValue
+				sink = sb.UnmarshalValue(c, target, nil)
+			}
+			return copyBudget(tokensFrom(ts), sink)
+		})
 	})
+	if classOf(err) == "EDiverge" {
+		return reflect.New(t).Elem(), err // the run may still be writing into its target
+	}
 	return target.Elem(), err
+}
+
+// the same through TapUnmarshal with a tap that only observes: tapping must not change the outcome
+var tapLeaked int
+
+func tapUnmarshalInto(t reflect.Type, ts []sb.Token) (reflect.Value, error) {
+	target := reflect.New(t)
+	err := withWatchdog(5*time.Second, &tapLeaked, func() error {
+		return guard(func() error {
+			return copyBudget(tokensFrom(ts), sb.TapUnmarshal(sb.Ctx{}, target.Interface(), func(sb.Ctx, sb.Token, reflect.Value) {}))
+		})
+	})
+	if classOf(err) == "EDiverge" {
+		return reflect.New(t).Elem(), err
+	}
+	return target.Elem(), err
+}
+
+// C05 through the tapped entry point: same acceptance, same error class, same value, and it returns
+func tapOracle(repU *Report, t reflect.Type, ts []sb.Token, back reflect.Value, eU error, desc string) {
+	if len(ts) == 0 {
+		return // an empty stream leaves a tapped target untouched (pinned by the repository's own test)
+	}
+	if tapLeaked >= 2 {
+		return // two tapped runs did not return (reported): each keeps a goroutine spinning, start no more
+	}
+	bt, eT := tapUnmarshalInto(t, ts)
+	repU.Evaluations++
+	switch {
+	case classOf(eT) == "EDiverge":
+		repU.violate("C05", "unmarshal-diverges", "Copy into TapUnmarshal did not return within 5 s (plain Unmarshal: "+classOf(eU)+")", "tapped: "+desc)
+	case classOf(eT) == "EPanic":
+		repU.violate("C05", "unmarshal-panic", fmt.Sprintf("TapUnmarshal panicked: %v", eT), "tapped: "+desc)
+	case classOf(eT) != classOf(eU):
+		repU.violate("C05", "tap-changes-outcome", fmt.Sprintf("plain Unmarshal: %s, through TapUnmarshal with an observing tap: %s", classOf(eU), classOf(eT)), "tapped: "+desc)
+	case eU == nil && !selfEqualOrEquiv(back, bt):
+		repU.violate("C05", "tap-changes-outcome", "the tapped run produced a different value", "tapped: "+desc)
+	}
+}
+
+func selfEqualOrEquiv(a, b reflect.Value) (ok bool) {
+	defer func() {
+		if recover() != nil {
+			ok = true // values the equivalence cannot traverse are not this oracle's business
+		}
+	}()
+	return equivValues(a, b)
 }
 
 // sb.Copy with a step budget (a diverging implementation becomes an observable)
